@@ -545,12 +545,6 @@ impl ShellVariable {
         if value.is_associative_array() {
             result.push('A');
         }
-        if matches!(
-            self.get_update_transform(),
-            ShellVariableUpdateTransform::Capitalize
-        ) {
-            result.push('c');
-        }
         if self.is_treated_as_integer() {
             result.push('i');
         }
@@ -560,23 +554,30 @@ impl ShellVariable {
         if self.is_readonly() {
             result.push('r');
         }
+        if self.is_trace_enabled() {
+            result.push('t');
+        }
+        if self.is_exported() {
+            result.push('x');
+        }
+        // The case-modification letters come last, as in bash.
+        if matches!(
+            self.get_update_transform(),
+            ShellVariableUpdateTransform::Capitalize
+        ) {
+            result.push('c');
+        }
         if matches!(
             self.get_update_transform(),
             ShellVariableUpdateTransform::Lowercase
         ) {
             result.push('l');
         }
-        if self.is_trace_enabled() {
-            result.push('t');
-        }
         if matches!(
             self.get_update_transform(),
             ShellVariableUpdateTransform::Uppercase
         ) {
             result.push('u');
-        }
-        if self.is_exported() {
-            result.push('x');
         }
 
         result
